@@ -534,6 +534,9 @@ def fdepsd(
         >>> _ = plt.legend(loc='best')
     """
     sig, freq = np.atleast_1d(sig, freq)
+    # (double precision: the parallel path stores the frequencies in a
+    # double precision shared array)
+    freq = freq.astype(float)
     if sig.ndim > 1 or freq.ndim > 1:
         raise ValueError("`sig` and `freq` must both be 1d arrays")
     if resp not in ("absacce", "pvelo"):
